@@ -9,6 +9,7 @@ Template directives (lines starting with //@@):
   //@@ rewrite-re "<regex>" => "<repl>"
   //@@ loop <k>                               text of the following //@@| lines is spliced between the
   //@@|   invariant ...                       header of the k-th loop of the body and its `{`
+  //@@ itername <k> <name>                    the k-th loop `for p in e` becomes `for p in <name>: e` (ghost iterator name)
   //@@ after "<statement text>"               text of the following //@@| lines is spliced after the
   //@@|   proof { ... }                       first statement whose whitespace-free text matches
   //@@ before "<statement text>"              the same, spliced before the statement
@@ -554,6 +555,9 @@ def build_unit(ws, unit_name):
                 # text placed in front of the body's trailing expression (after the last top-level statement)
                 pending["tail"] = []
                 pending["cur"] = pending["tail"]
+            elif d.startswith("itername"):
+                # `itername k name`: the k-th loop is a `for pat in expr`; name its ghost iterator (`for pat in name: expr`)
+                pending.setdefault("iternames", {})[int(d.split()[1])] = d.split()[2]
             elif d.startswith("loopafter"):
                 # `loopafter k`: text placed right after the k-th loop (after its closing brace)
                 k = int(d.split()[1])
@@ -641,6 +645,17 @@ def build_unit(ws, unit_name):
                         ends.append((c_idx + (1 if kind == "loopafters" else 0), kind, k))
                 for c_idx, kind, k in sorted(ends, reverse=True):
                     body = body[:c_idx] + "\n" + "\n".join(p[kind][k]) + "\n" + body[c_idx:]
+            if p.get("iternames"):
+                hdrs = loop_headers(body)
+                for k in sorted(p["iternames"], reverse=True):
+                    if k > len(hdrs):
+                        raise ExtractError("lost anchor: loop %d of `%s` not found" % (k, p["anchor"]))
+                    kw, b_idx = hdrs[k - 1]
+                    mi = re.match(r"for\s+(?:[^{]*?)\sin\s+", body[kw:b_idx], flags=re.S)
+                    if not mi:
+                        raise ExtractError("lost anchor: loop %d of `%s` is not a for-in loop" % (k, p["anchor"]))
+                    body = body[:kw + mi.end()] + p["iternames"][k] + ": " + body[kw + mi.end():]
+                    applied.append({"kind": "itername", "from": "for .. in", "to": "for .. in %s:" % p["iternames"][k], "count": 1})
             # loops: splice from the last to the first so indices stay valid
             if p["loops"]:
                 hdrs = loop_headers(body)
